@@ -2,6 +2,7 @@ import D2P.Props.Examples
 import D2P.Model.Output
 import D2P.Proofs.Elems
 import D2P.Props.C02Stray
+import D2P.Props.C02BodyStray
 /-!
 # Open findings, as kernel-checked witnesses
 
@@ -69,6 +70,11 @@ box starts an unformatted run in a new implicit paragraph (and closing the run l
 theorem C07_finding_text_after_box :
     (newDepthCollector cfgFindingsHtml [] boxDoc >>= runStrs) =
       .ok [[lit "a"], [lit "<i>pre </i>"], [lit "boxed"], [lit " post"], [], [lit "b"]] := by
+  decide +kernel
+
+/-- non-vacuity of `C02_items`: paragraph, display equation, paragraph, and a final group of a stray run and an equation -/
+theorem items_ok :
+    okSeq false [.blk (p 1 [r 2 [t 3 "a"]]), .grp [strayEq], .blk (p 8 [r 9 [t 10 "b"]]), .grp [r 20 [t 21 "s"], strayEq]] = true := by
   decide +kernel
 
 end D2P.Ex
